@@ -1007,6 +1007,14 @@ impl Transaction {
             }
         }
 
+        // only a placeholder stands for other transactions. on any other transaction a replacement
+        // count would be the sender's free choice, and the merkle tree of a lite block, which replaces the
+        // transaction by a placeholder for one transaction, could no longer be recomputed
+        if self.transaction_type != TransactionType::SPV && self.txs_replacements != 1 {
+            error!("ERROR: transaction that is no placeholder claims to replace transactions");
+            return false;
+        }
+
         // the transactions a block producer generates are not routed. a routing path on one of them
         // is covered by no check (their signatures and paths are never verified), yet it would count
         // as routing work of the block and could win the routing payout
